@@ -105,6 +105,13 @@ func (s *tagStats) rpc(n int64) ([]string, int) {
 	return append([]string(nil), s.rpcs[n]...), stray
 }
 
+// events of RPC number n and the number of events without a tag (other RPCs of the scenario are not strays)
+func (s *tagStats) rpcOnly(n int64) ([]string, int) {
+	s.mu.Lock()
+	defer s.mu.Unlock()
+	return append([]string(nil), s.rpcs[n]...), s.untagged
+}
+
 func (s *tagStats) connEvents() []string {
 	s.mu.Lock()
 	defer s.mu.Unlock()
